@@ -34,7 +34,7 @@ PROPS = {
                 rule="L1: all 256 byte values x all 256 counts x 2 flag words for the 7 shift/rotate functions; word values (lattice+random) x all 256 counts; "
                      "logic ops on all byte pairs and lattice/random word pairs; non-trivial = result or flags changed"
                      " l2i ishapes: requests generated from the CURRENT interpreter grammar (every alternative of every instruction production x every table entry x every memory-operand alternative); l2 mixseq: mixed straight-line sequences over all instruction classes."),
-    "C03": dict(modules=["Emu8086.Props.C03"], runs=[("l1", "muldiv"), ("l2", "muldiv"), ("l2", "divx"), ("l2i", "ishapes"), ("l2", "mixseq"), ("l3", "roles")], gen=["Arch"],
+    "C03": dict(modules=["Emu8086.Props.C03", "Emu8086.Props.C11"], runs=[("l1", "muldiv"), ("l2", "muldiv"), ("l2", "divx"), ("l2i", "ishapes"), ("l2", "mixseq"), ("l3", "roles")], gen=["Arch", "ILiterals", "PPGrammar"],
                 rule="L1: MUL/IMUL/DIV/IDIV byte forms on (lattice+random AX) x all 256 operands, word forms on lattice triples + random 48-bit triples "
                      "biased to the quotient-overflow boundary; adjusts on AX x {AF,CF}; non-trivial = state changed or divide error"
                      " l2i ishapes: requests generated from the CURRENT interpreter grammar (every alternative of every instruction production x every table entry x every memory-operand alternative); l2 mixseq: mixed straight-line sequences over all instruction classes."),
@@ -50,12 +50,12 @@ PROPS = {
                      "stackseq = straight-line random interleavings of pushes/pops/moves (length up to 64 quick / 2000 thorough) executed line by line "
                      "against the model and the reference; non-trivial = more than one instruction or a state change"
                      " l2i ishapes: requests generated from the CURRENT interpreter grammar (every alternative of every instruction production x every table entry x every memory-operand alternative); l2 mixseq: mixed straight-line sequences over all instruction classes."),
-    "C06": dict(modules=["Emu8086.Props.C06"], runs=[("l2", "jumpx"), ("l2", "jump"), ("l3", "jumpspell"), ("l2i", "ishapes")], gen=["Arch", "ILiterals", "Jumps"],
+    "C06": dict(modules=["Emu8086.Props.C06", "Emu8086.Props.C11"], runs=[("l2", "jumpx"), ("l2", "jump"), ("l3", "jumpspell"), ("l2i", "ishapes")], gen=["Arch", "ILiterals", "Jumps", "PPGrammar"],
                 rule="L2 jumpx: EVERY jump mnemonic of the interpreter x all 32 settings of CF/PF/ZF/SF/OF x 4 settings of the other flag bits "
                      "(x CX lattice + random for JCXZ/LOOP*); jump: random jumps/calls/rets/ints; non-trivial = outcome other than plain NEXT or CX changed"
                      " L3 jumpspell: every Intel jump/loop mnemonic in both cases through the real assembler, emitted jump must belong to its Intel class (request jsp)."
                      " l2i ishapes: requests generated from the CURRENT interpreter grammar (every alternative x every table entry x every memory-operand alternative)."),
-    "C07": dict(modules=["Emu8086.Props.C07"], runs=[("l2", "string"), ("l2", "rep"), ("l4", "strings"), ("l2i", "ishapes"), ("l2", "mixseq"), ("l2", "alias"), ("l3", "roles")], gen=["Arch", "ILiterals"],
+    "C07": dict(modules=["Emu8086.Props.C07", "Emu8086.Props.C11"], runs=[("l2", "string"), ("l2", "rep"), ("l4", "strings"), ("l2i", "ishapes"), ("l2", "mixseq"), ("l2", "alias"), ("l3", "roles")], gen=["Arch", "ILiterals", "PPGrammar"],
                 rule="L2 string: single steps of every string instruction x width x DF x prefix on adversarial DS/ES/SI/DI; rep: the REPEAT protocol "
                      "driven to completion (the driver's loop) for every mnemonic x width x DF x prefix x CX in 0..64 (+255, 300; thorough also 4095, 32768, 65535), "
                      "with aliasing DS:SI/ES:DI and runs of equal bytes; non-trivial = CX != 0 or a state change"
@@ -66,7 +66,7 @@ PROPS = {
                      "counts 0..255, divisors 0/1/-1) with catch_unwind in an overflow-checking build: a PANIC of the real code is a violation; malformed = "
                      "near-miss lines the assembler never emits (must be a reported error in both); divx = MUL/IMUL/DIV/IDIV over the boundary lattice^3 of (AX, DX, operand) x 10 operand forms (divisors 0/1/-1, MIN dividends); non-trivial = outcome/state differs from plain NEXT"
                      " l2i ishapes: requests generated from the CURRENT interpreter grammar (every alternative of every instruction production x every table entry x every memory-operand alternative); l2 mixseq: mixed straight-line sequences over all instruction classes."),
-    "C08": dict(modules=["Emu8086.Props.C08", "Emu8086.Props.C08Flow"], runs=[("l4", "run"), ("l3", "progs"), ("l3", "jumpspell"), ("l3", "roles")], gen=["Arch", "ILiterals", "PPGrammar"],
+    "C08": dict(modules=["Emu8086.Props.C08", "Emu8086.Props.C08Flow", "Emu8086.Props.C11"], runs=[("l4", "run"), ("l3", "progs"), ("l3", "jumpspell"), ("l3", "roles")], gen=["Arch", "ILiterals", "PPGrammar"],
                 rule="L4 run: structured terminating programs (procedures first, labels at every position incl. last / before procedures / macro uses / prints, "
                      "forward jumps, bounded LOOPs, calls of calls, start in the middle, code after hlt) executed by the REAL binary; the executed-instruction "
                      "trace, final registers and memory (verification hook) and stdout must equal the model's run loop; L3 progs: random whole programs through "
@@ -88,7 +88,7 @@ PROPS = {
                      "strings with every printable character, segments up to FFFFh so that data crosses the 1 MB wrap); L3: emitted data lines, label offsets, OFFSET "
                      "values vs model; L4: the WHOLE memory image after loading (all non-zero bytes, via the verification hook) and `print mem` output vs the model's loader"
                      " L4 dataref: SET/DB/DW of all kinds incl. two-argument arrays and negative values; the dump of every segment touched, the offset of every label and the word read through every label operand must equal an image computed by the generator from the definitions. L2: label operands under arbitrary DS."),
-    "C13": dict(modules=["Emu8086.Props.C13", "Emu8086.Props.C13Subst"], runs=[("l4", "macros"), ("l4", "fuzz"), ("l3", "macros", {"VERIF_ISOLATE": "1"}), ("l3", "macroref", {"VERIF_ISOLATE": "1"}), ("l3", "progs")], gen=["Arch", "ILiterals", "PPGrammar"],
+    "C13": dict(modules=["Emu8086.Props.C13", "Emu8086.Props.C13Subst", "Emu8086.Props.C11"], runs=[("l4", "macros"), ("l4", "fuzz"), ("l3", "macros", {"VERIF_ISOLATE": "1"}), ("l3", "macroref", {"VERIF_ISOLATE": "1"}), ("l3", "progs")], gen=["Arch", "ILiterals", "PPGrammar"],
                 rule="random macro libraries (1-5 macros, 0-3 parameters whose names are prefixes/substrings of each other and of body tokens, macros using earlier "
                      "and later macros incl. cycles, names passed as arguments, uses inside procedures) x use sites with register / number / bracketed-memory / label "
                      "arguments: output of the real assembler vs the model's expansion; non-trivial = accepted program"
@@ -109,7 +109,7 @@ PROPS = {
                      "stepping runs and prints/interrupts at first/middle/last lines and inside macros and procedures: line number, column and line text in the real "
                      "binary's messages must equal the model's (computed from the source map and byte offsets)"
                      " diag includes errors arising inside macro expansions at known lines and macro-generated undefined jumps; stdout compared strictly."),
-    "C17": dict(modules=["Emu8086.Props.C17"], runs=[("l4", "prints", {"VERIF_STRICT_OUT": "1"}), ("l4", "prompt", {"VERIF_STRICT_OUT": "1"})], gen=["Arch", "ILiterals", "PPGrammar"],
+    "C17": dict(modules=["Emu8086.Props.C17", "Emu8086.Props.C11"], runs=[("l4", "prints", {"VERIF_STRICT_OUT": "1"}), ("l4", "prompt", {"VERIF_STRICT_OUT": "1"})], gen=["Arch", "ILiterals", "PPGrammar"],
                 rule="random machine states established by generated programs x print reg / flags / mem with ranges of length 0/1/15/16/17/31/32/100, ending at "
                      "FFFFFh, backwards, beyond 2^20, DS-relative with DS up to FFFFh, constants in all radices; stdout compared byte-for-byte with the model; the same "
                      "commands typed at the prompt; state after printing compared (trace hook)"
